@@ -194,6 +194,8 @@ for _tr, _short, _fns in [("SerializeSeq", "seq", ["serialize_element"]), ("Seri
           fns=["postcard::ser::serializer::<impl ser::%s for &mut Serializer<F>>::%s" % (_tr, _f)],
           witness="C02.K.emit." + ("variants2" if "variant" in _short else "compound"),
           note=("appends exactly the element's / field's own wire form (field names never reach the output)" if _f != "end" else "appends nothing") + "; generic over the flavour contract")
+V("C02.V.emit.serialize_with_flavor", "emit", "serialize_with_flavor", {"C02": "D", "C20": "S", "C05": "S"}, fns=["postcard::ser::serialize_with_flavor"],
+  witness="C01.K.entry.to_*", note="the function every to_* entry point goes through: the finalized output stands for exactly storage.view() ++ wire(value) - any value, any flavour meeting the flavour contract (incl. finalize)")
 for _w in W:
     V("C02.V.emit.try_push_varint_" + _w, "emit", "Serializer::try_push_varint_" + _w, {"C02": "D", "C01": "S"},
       fns=["postcard::ser::serializer::Serializer::try_push_varint_" + _w], witness="C02.K.emit." + (_w if _w != "usize" else "compound"),
